@@ -395,6 +395,25 @@ def run(ctx):
                   "a failed read/write is retried only for EINTR; every other error (EAGAIN from the socket time-outs included) ends the transfer",
                   "wrapFull goes round again after a failed call for an error other than EINTR: a client that stops reading (or writing) keeps its "
                   "handler thread, its descriptor and its slot for ever, and ~Stats() runs into its 5 s abort")
+    # ... and the callable wrapFull is handed performs ONE attempt: no loop of its own around the system call (a private retry of
+    # EAGAIN / EWOULDBLOCK inside the closure defeats the rule above just as well)
+    n_cl = 0
+    for f in sorted(P.fns.values(), key=lambda x: x.usr):
+        if not f.file.startswith("oomd/") or f.file.endswith("Test.cpp") or not f.calls("wrapFull", "Util::wrapFull"):
+            continue
+        for lam in P.lambdas_in(f):
+            sysc = lam.calls("read", "write", "send", "recv", "sendto", "recvfrom", "sendmsg", "recvmsg", "pread", "pwrite")
+            if not sysc:
+                continue
+            n_cl += 1
+            ctx.use(lam)
+            lp = loops(lam)
+            ctx.check(not lp and len(sysc) == 1, "io-retries-only-EINTR:callable:%s" % short(f), "loop-free callable", lam.loc(lp[0]["stmt"]) if lp and lp[0].get("stmt") is not None else lam.loc(),
+                      "the transfer callable of %s makes one attempt per call" % f.pq,
+                      "the callable %s hands to wrapFull loops around (or repeats) its system call: errors wrapFull would end the transfer for - EAGAIN from the "
+                      "2 s socket time-outs - are retried inside it, so a client that stops reading keeps its handler thread for ever" % f.pq)
+    ctx.counters["wrapFull_callables"] = n_cl
+    ctx.floor("wrapFull_callables", 1, "closures handed to wrapFull (the MSG_NOSIGNAL send)")
     # the time-outs themselves are installed on every accepted connection before the handler starts
     rsk = ctx.fn1("Oomd::Stats::runSocket")
     so = [i for i in rsk.calls("setsockopt")]
